@@ -1,6 +1,7 @@
 package checks
 
 import (
+	"context"
 	"encoding/json"
 	"fmt"
 	"io"
@@ -161,6 +162,12 @@ func c15Build(c c15Config) *c15World {
 					down(400)
 				case "after-flush":
 					ctx.ResponseWriter().Flush() // commits the implicit 200
+				case "after-cancelling-the-request-context":
+					// the request goes on under a context of the handler's making, which is cancelled by the time
+					// of the panic (a deadline that ran out): no status has been sent, so the client gets 500
+					cc, cancel := context.WithCancel(ctx.Request().Context())
+					ctx.Request().Request = ctx.Request().Request.WithContext(cc)
+					cancel()
 				}
 				if k := ctx.Request().Header.Get("X-Kind"); k != "" {
 					c15PanicWith(k) // this request panics with another kind of value than the configured one
@@ -406,7 +413,7 @@ func c15Configs(thorough bool) []c15Config {
 	if thorough {
 		maxN = 5
 	}
-	phases := []string{"before-write", "after-status", "after-body", "after-next", "unresolved-dependency", "after-failed-hijack-and-push", "after-flush", "deep-recursion", "after-next-unanswered"}
+	phases := []string{"before-write", "after-status", "after-body", "after-next", "unresolved-dependency", "after-failed-hijack-and-push", "after-flush", "deep-recursion", "after-next-unanswered", "after-cancelling-the-request-context"}
 	values := []string{"string", "error", "runtime", "struct", "abort", "nil-error-pointer", "panicking-stringer"}
 	styles := []string{"use", "route", "group", "use-action", "route-action"}
 	for n := 2; n <= maxN; n++ {
@@ -418,7 +425,7 @@ func c15Configs(thorough bool) []c15Config {
 							if ph == "unresolved-dependency" && v != "string" {
 								continue
 							}
-							if (ph == "after-failed-hijack-and-push" || ph == "after-flush" || ph == "deep-recursion" || ph == "after-next-unanswered") && v != "string" && v != "runtime" && !thorough {
+							if (ph == "after-failed-hijack-and-push" || ph == "after-flush" || ph == "deep-recursion" || ph == "after-next-unanswered" || ph == "after-cancelling-the-request-context") && v != "string" && v != "runtime" && !thorough {
 								continue
 							}
 							for _, st := range styles {
